@@ -38,6 +38,7 @@ func runC15(c *core.Ctx) {
 	c.Clause("C15.5 shutdown can make progress: ordering of Serve's epilogue, single closer of Raft.close")
 	h.shutdownOrder("C15.5 shutdown")
 	h.stateDriver("C15.5b state-driver")
+	h.batchHandedOverAtClose("C15.5c batch-handed-over-at-close")
 	c.Clause("C15.6 panic conversion routes through recoverErr")
 	h.panicConversion("C15.6 panic-conversion")
 	h.unexpectedErrStops("C15.6b unexpected-error-stops")
